@@ -706,3 +706,15 @@ def c14_roundtrip_matrix(acc0, k, v, j):
     assert back[v][j] == acc0[v][j], "accessor -> adjacency matrix -> accessor is the identity"
 ''', requires={"graph": "k >= 1 and k <= 31 and is_accessor(acc0, k)", "entry": "v < ipow(4, k) and j < 4"}, ghost_params={"k": "nat"},
         raises={"MemoryError": None})
+
+
+harness("c14_leaf_queries_agree", {"acc0": "mat(ipow(4, k), 4)", "v": "nat", "d": "nat", "p": "nat"}, '''
+def c14_leaf_queries_agree(acc0, k, v, d, p):
+    lm = accessor_to_latter_map(acc0)
+    accessor = acc0
+    from_accessor = obtain_leaf_vertices(v, d, accessor, None)
+    from_map = obtain_leaf_vertices(v, d, None, lm)
+    assert len(from_accessor) == len(from_map) and len(from_map) == levn(acc0, v, d), "both representations give as many leaves as there are d-step walks"
+    if p < len(from_map):
+        assert from_accessor[p] == from_map[p] and from_map[p] == lev(acc0, v, d, p), "the same leaves in the same order: the end points of the d-step walks"
+''', requires={"graph": "k >= 1 and is_accessor(acc0, k)", "vertex": "v < ipow(4, k)"}, ghost_params={"k": "nat"})
